@@ -182,7 +182,8 @@ def run(chk):
     chk.trusted += ['translator translate/py2lean.py, cdispatch.py (validated per slot each run)',
                     'C handler bodies and C run loop: differential execution only (not translated)']
     chk.assumptions += ['"bit-identical for every program" is a theorem for dispatch (C = Python tables) and for the Python pair per closure '
-                        '(modulo T/MEMPTR, 3 closures excluded, see Props/C06); for the C handler bodies it is checked correspondence',
+                        '(modulo T/MEMPTR, and F bits 5/3 after BIT n,(HL); runs of any length as long as no HALT, LD A,I/R or BIT n,(HL) is executed, see Props/C06); '
+                        'for the C handler bodies it is checked correspondence',
                         'tools run with and without --python are not exercised here (C10/C13/C20 do that for trace/tap2sna/rzxplay)']
     (pagingtracer,) = fresh_import('skoolkit.pagingtracer')
     gen_ok = simgen.regen(chk)
